@@ -9,6 +9,7 @@ import (
 	"encoding/json"
 	"errors"
 	"fmt"
+	"io"
 	"math/rand"
 	"os"
 	"os/exec"
@@ -64,8 +65,27 @@ type c17Remote struct {
 }
 
 func (r *c17Remote) fetch(p []byte, off int64) (int, error) {
-	r.fetches.Add(1)
+	k := r.fetches.Add(1)
 	if r.down.Load() {
+		// a failed fetch comes in several flavours: nothing read and a transport error, nothing read and io.EOF (the remote
+		// closed the connection), part of the range read and io.EOF / io.ErrUnexpectedEOF, a wrapped error
+		half := len(p) / 2
+		switch k % 5 {
+		case 1:
+			return 0, io.EOF
+		case 2:
+			for i := 0; i < half; i++ {
+				p[i] = c17ByteAt(off + int64(i))
+			}
+			return half, io.EOF
+		case 3:
+			for i := 0; i < half; i++ {
+				p[i] = c17ByteAt(off + int64(i))
+			}
+			return half, io.ErrUnexpectedEOF
+		case 4:
+			return 0, fmt.Errorf("fetch: %w", io.EOF)
+		}
 		return 0, errors.New("remote down")
 	}
 	for i := range p {
